@@ -137,6 +137,7 @@ class PackageGenerator:
         self._result_types_files: Dict[str, ast.Module] = {}
         self._generated_files: List[str] = []
         self._unpacked_fragments: Set[str] = set()
+        self._fragments_used_as_mixins: Set[str] = set()
         self._used_enums: List[str] = []
         self._operations: List[tuple] = []
 
@@ -204,6 +205,9 @@ class PackageGenerator:
         )
         self._unpacked_fragments = self._unpacked_fragments.union(
             query_types_generator.get_unpacked_fragments()
+        )
+        self._fragments_used_as_mixins = self._fragments_used_as_mixins.union(
+            query_types_generator.get_fragments_used_as_mixins()
         )
         self._used_enums.extend(query_types_generator.get_used_enums())
         self._result_types_files[file_name] = query_types_generator.generate()
@@ -347,14 +351,13 @@ class PackageGenerator:
             self._generated_files.append(file_path.name)
 
     def _generate_fragments(self):
-        if not set(self.fragments_definitions.keys()).difference(
-            self._unpacked_fragments
-        ):
+        # fragments that are only ever unpacked get no class, but one that is also
+        # a base class of some result class has to stay in the fragments module
+        exclude_names = self._unpacked_fragments - self._fragments_used_as_mixins
+        if not set(self.fragments_definitions.keys()).difference(exclude_names):
             return
 
-        module = self.fragments_generator.generate(
-            exclude_names=self._unpacked_fragments
-        )
+        module = self.fragments_generator.generate(exclude_names=exclude_names)
         file_path = self.package_path / f"{self.fragments_module_name}.py"
         code = self._add_comments_to_code(ast_to_str(module), self.queries_source)
         file_path.write_text(code)
